@@ -2,17 +2,22 @@
   Cross-model agreement, cluster "Output side" — pair (1) on the REGENERATED tables: the character classes the C11
   driver runs with (`Ptk.C11.genW`: `Gen.C11.rawWidth`, `Gen.C11.display`) vs the ones the C10 driver runs with
   (`Ptk.C10.genTable`, `Ptk.C10.genWc`, `Gen.C10.isPrintable`).  These discharge the hypotheses of the parametric
-  theorems of `Ptk.Props.AgreeOutChar` / `AgreeOutCopy` (`WRel.hdisp`, `WRel.hrw`, `PrintableUnmapped`):
+  theorems of `Ptk.Props.AgreeOutChar` / `AgreeOutCopy` (`WRel`, `PrintableUnmapped`):
 
     gen_hdisp          `Char.display_mappings` / `Char.__init__`: same displayed string for EVERY character
     gen_hpr            no printable character has a display mapping (the fast path of `get_display_width`)
-    gen_hrw_scanned    `get_cwidth` of one character: equal on every code point of `Gen.C11.scanned`
-                       (kernel-checked by a linear walk over the sorted range tables, `go` / `go_sound`)
-    gen_hrw_outside_scanned   … and NOT equal outside: C11's width table is only scanned on those ranges
-                       (U+3105: wcwidth 2, C11 table 1; the real `get_cwidth` says 2)
+    gen_hrw            `get_cwidth` of one character: the two width tables agree on EVERY code point (< 0x110000),
+                       kernel-checked by a piecewise walk over the sorted range tables (`goP` / `goP_sound`: one step
+                       per maximal interval on which both tables are constant, ~2000 steps)
+    genW_WRel          hence `WRel C11.genW C10.genTable C10.genWc`, and `copyBody_agree_gen`: `copyBody_agree`
+                       instantiated with the regenerated character classes, for all texts
+
+  History: until C11's generated width table was repaired (it used to be scanned on `Gen.C11.scanned` only), `gen_hrw`
+  held on the scanned ranges only and `gen_hrw_outside_scanned` was a witness of the disagreement at U+3105.
 -/
 import Ptk.Model.C10Gen
 import Ptk.Model.C11W
+import Ptk.Props.AgreeOutCopy
 namespace Ptk.AgreeOut.GenChar
 open Ptk Ptk.Py
 
@@ -85,7 +90,8 @@ def rawWidthN (n : Nat) : Nat :=
 
 theorem rawWidth_eq (c : Char) : Gen.C11.rawWidth c = rawWidthN c.toNat := rfl
 
-/-! A linear checker: walk the code points upwards, dropping the ranges that ended; sound for tables sorted by start. -/
+/-! A piecewise checker: walk upwards over the maximal intervals on which all three range tables are constant,
+    dropping the ranges that ended; sound for membership tables sorted by start. -/
 
 /-- starts are non-decreasing -/
 def sortedB : List (Nat × Nat) → Bool
@@ -97,11 +103,6 @@ def sortedB : List (Nat × Nat) → Bool
 def dropDead : List (Nat × Nat) → Nat → List (Nat × Nat)
   | [], _ => []
   | (a, b) :: rest, n => if Nat.blt b n then dropDead rest n else (a, b) :: rest
-
-/-- membership with early exit (sorted tables) -/
-def inRE : List (Nat × Nat) → Nat → Bool
-  | [], _ => false
-  | (a, b) :: rest, n => if Nat.blt n a then false else (Nat.ble n b || inRE rest n)
 
 /-- drop the leading well-formed ranges that end before `n` -/
 def dropDeadC : List (Nat × Nat × Int) → Nat → List (Nat × Nat × Int)
@@ -117,11 +118,38 @@ def forceL {α β : Type} (l : List α) (k : List α → β) : β :=
 theorem forceL_eq {α β : Type} (l : List α) (k : List α → β) : forceL l k = k l := by
   cases l <;> rfl
 
-def go : List (Nat × Nat) → List (Nat × Nat) → List (Nat × Nat × Int) → Nat → Nat → Bool
-  | _, _, _, _, 0 => true
-  | z, w, c, n, k + 1 =>
+/-- membership of `n` in a sorted table whose dead ranges were dropped, and the end (exclusive, capped by `hi`) of the
+    interval from `n` on which membership stays the same; `none`: the head range is neither ahead nor around `n` -/
+def pieceZ (hi : Nat) : List (Nat × Nat) → Nat → Option (Bool × Nat)
+  | [], _ => some (false, hi)
+  | (a, b) :: _, n => if Nat.blt n a then some (false, a) else if Nat.ble n b then some (true, b + 1) else none
+
+/-- the same for `wcFind` -/
+def pieceC (hi : Nat) : List (Nat × Nat × Int) → Nat → Option (Int × Nat)
+  | [], _ => some (1, hi)
+  | (a, b, w) :: _, n => if Nat.blt n a then some (1, a) else if Nat.ble n b then some (w, b + 1) else none
+
+def goP (hi : Nat) : Nat → List (Nat × Nat) → List (Nat × Nat) → List (Nat × Nat × Int) → Nat → Bool
+  | 0, _, _, _, n => Nat.ble hi n
+  | fuel + 1, z, w, c, n =>
+    if Nat.ble hi n then true else
     forceL (dropDead z n) fun z' => forceL (dropDead w n) fun w' => forceL (dropDeadC c n) fun c' =>
-      ((if inRE z' n then 0 else if inRE w' n then 2 else 1) == (Gen.C10.wcFind c' n).toNat) && go z' w' c' (n + 1) k
+      match pieceZ hi z' n, pieceZ hi w' n, pieceC hi c' n with
+      | some (vz, ez), some (vw, ew), some (vc, ec) =>
+        ((if vz then 0 else if vw then 2 else 1) == vc.toNat) && goP hi fuel z' w' c' (min ez (min ew ec))
+      | _, _, _ => false
+
+theorem blt_false {a b : Nat} (h : ¬ a < b) : Nat.blt a b = false := by
+  cases hx : Nat.blt a b with
+  | false => rfl
+  | true => exact absurd (by simpa [Nat.blt_eq] using hx) h
+
+theorem ble_false {a b : Nat} (h : ¬ a ≤ b) : Nat.ble a b = false := by
+  cases hx : Nat.ble a b with
+  | false => rfl
+  | true => exact absurd (Nat.le_of_ble_eq_true hx) h
+
+theorem blt_true {a b : Nat} (h : a < b) : Nat.blt a b = true := by simpa [Nat.blt_eq] using h
 
 theorem sortedB_tail (r : Nat × Nat) (rs : List (Nat × Nat)) (h : sortedB (r :: rs) = true) : sortedB rs = true := by
   cases rs with
@@ -151,37 +179,6 @@ theorem inR_false_of_lt (rs : List (Nat × Nat)) (n : Nat) (h : ∀ q ∈ rs, n 
   simp only [Bool.and_eq_true, decide_eq_true_eq, not_and]
   intro h1; exact absurd h1 (by simp only [] at this; omega)
 
-theorem inRE_eq (rs : List (Nat × Nat)) (n : Nat) (h : sortedB rs = true) : inRE rs n = inR rs n := by
-  induction rs with
-  | nil => rfl
-  | cons r rest ih =>
-    obtain ⟨a, b⟩ := r
-    have ih' := ih (sortedB_tail _ _ h)
-    simp only [inRE]
-    by_cases h1 : n < a
-    · have hb : Nat.blt n a = true := by simpa [Nat.blt_eq] using h1
-      simp only [hb, if_true]
-      symm
-      apply inR_false_of_lt
-      intro q hq
-      rcases List.mem_cons.mp hq with e | hq'
-      · subst e; exact h1
-      · exact Nat.lt_of_lt_of_le h1 (sortedB_head_le _ _ h q hq')
-    · have hb : Nat.blt n a = false := by
-        cases hx : Nat.blt n a with
-        | false => rfl
-        | true => exact absurd (by simpa [Nat.blt_eq] using hx) h1
-      simp only [hb, Bool.false_eq_true, if_false, ih']
-      unfold inR
-      simp only [List.any_cons]
-      have : decide (a ≤ n) = true := by simpa using Nat.le_of_not_lt h1
-      simp only [this, Bool.true_and]
-      cases hx : Nat.ble n b
-      · have hn : ¬ n ≤ b := fun hle => by rw [Nat.ble_eq_true_of_le hle] at hx; exact Bool.noConfusion hx
-        simp [hn]
-      · have hn : n ≤ b := Nat.le_of_ble_eq_true hx
-        simp [hn]
-
 theorem dropDead_inR (rs : List (Nat × Nat)) (n m : Nat) (h : n ≤ m) : inR (dropDead rs n) m = inR rs m := by
   induction rs with
   | nil => rfl
@@ -189,17 +186,12 @@ theorem dropDead_inR (rs : List (Nat × Nat)) (n m : Nat) (h : n ≤ m) : inR (d
     obtain ⟨a, b⟩ := r
     simp only [dropDead]
     by_cases hb : b < n
-    · have : Nat.blt b n = true := by simpa [Nat.blt_eq] using hb
-      simp only [this, if_true, ih]
+    · simp only [blt_true hb, if_true, ih]
       unfold inR
       simp only [List.any_cons]
       have : decide (m ≤ b) = false := by simpa using (by omega : b < m)
       simp [this]
-    · have : Nat.blt b n = false := by
-        cases hx : Nat.blt b n with
-        | false => rfl
-        | true => exact absurd (by simpa [Nat.blt_eq] using hx) hb
-      simp [this]
+    · simp [blt_false hb]
 
 theorem dropDead_sorted (rs : List (Nat × Nat)) (n : Nat) (h : sortedB rs = true) : sortedB (dropDead rs n) = true := by
   induction rs with
@@ -232,65 +224,194 @@ theorem dropDeadC_wcFind (rs : List (Nat × Nat × Int)) (n m : Nat) (h : n ≤ 
           exact absurd hx hb
       simp [this]
 
-theorem go_sound (z0 w0 : List (Nat × Nat)) (c0 : List (Nat × Nat × Int)) :
-    ∀ (k n : Nat) (z w : List (Nat × Nat)) (c : List (Nat × Nat × Int)),
+theorem pieceZ_sound (hi : Nat) (z : List (Nat × Nat)) (n : Nat) (v : Bool) (e : Nat) (hs : sortedB z = true)
+    (hn : n < hi) (h : pieceZ hi z n = some (v, e)) : n < e ∧ ∀ m, n ≤ m → m < e → inR z m = v := by
+  cases z with
+  | nil =>
+    simp only [pieceZ, Option.some.injEq, Prod.mk.injEq] at h
+    obtain ⟨rfl, rfl⟩ := h
+    exact ⟨hn, fun _ _ _ => rfl⟩
+  | cons r rest =>
+    obtain ⟨a, b⟩ := r
+    simp only [pieceZ] at h
+    by_cases h1 : n < a
+    · simp only [blt_true h1, if_true, Option.some.injEq, Prod.mk.injEq] at h
+      obtain ⟨rfl, rfl⟩ := h
+      refine ⟨h1, fun m _ hm => inR_false_of_lt _ _ ?_⟩
+      intro q hq
+      rcases List.mem_cons.mp hq with e | hq'
+      · subst e; exact hm
+      · exact Nat.lt_of_lt_of_le hm (sortedB_head_le _ _ hs q hq')
+    · simp only [blt_false h1, Bool.false_eq_true, if_false] at h
+      by_cases h2 : n ≤ b
+      · simp only [Nat.ble_eq_true_of_le h2, if_true, Option.some.injEq, Prod.mk.injEq] at h
+        obtain ⟨rfl, rfl⟩ := h
+        refine ⟨by omega, fun m hm1 hm2 => ?_⟩
+        unfold inR
+        simp only [List.any_cons]
+        have e1 : decide (a ≤ m) = true := by simpa using (by omega : a ≤ m)
+        have e2 : decide (m ≤ b) = true := by simpa using (by omega : m ≤ b)
+        simp [e1, e2]
+      · simp [ble_false h2] at h
+
+theorem pieceC_sound (hi : Nat) (c : List (Nat × Nat × Int)) (n : Nat) (v : Int) (e : Nat)
+    (hn : n < hi) (h : pieceC hi c n = some (v, e)) : n < e ∧ ∀ m, n ≤ m → m < e → Gen.C10.wcFind c m = v := by
+  cases c with
+  | nil =>
+    simp only [pieceC, Option.some.injEq, Prod.mk.injEq] at h
+    obtain ⟨rfl, rfl⟩ := h
+    exact ⟨hn, fun _ _ _ => rfl⟩
+  | cons r rest =>
+    obtain ⟨a, b, w⟩ := r
+    simp only [pieceC] at h
+    by_cases h1 : n < a
+    · simp only [blt_true h1, if_true, Option.some.injEq, Prod.mk.injEq] at h
+      obtain ⟨rfl, rfl⟩ := h
+      refine ⟨h1, fun m _ hm => ?_⟩
+      simp [Gen.C10.wcFind, hm]
+    · simp only [blt_false h1, Bool.false_eq_true, if_false] at h
+      by_cases h2 : n ≤ b
+      · simp only [Nat.ble_eq_true_of_le h2, if_true, Option.some.injEq, Prod.mk.injEq] at h
+        obtain ⟨rfl, rfl⟩ := h
+        refine ⟨by omega, fun m hm1 hm2 => ?_⟩
+        have e1 : ¬ m < a := by omega
+        have e2 : m ≤ b := by omega
+        simp [Gen.C10.wcFind, e1, e2]
+      · simp [ble_false h2] at h
+
+theorem goP_sound (hi : Nat) (z0 w0 : List (Nat × Nat)) (c0 : List (Nat × Nat × Int)) :
+    ∀ (fuel n : Nat) (z w : List (Nat × Nat)) (c : List (Nat × Nat × Int)),
     sortedB z = true → sortedB w = true →
     (∀ m, n ≤ m → inR z m = inR z0 m) → (∀ m, n ≤ m → inR w m = inR w0 m) →
     (∀ m, n ≤ m → Gen.C10.wcFind c m = Gen.C10.wcFind c0 m) →
-    go z w c n k = true →
-    ∀ m, n ≤ m → m < n + k →
+    goP hi fuel z w c n = true →
+    ∀ m, n ≤ m → m < hi →
       (if inR z0 m then 0 else if inR w0 m then 2 else 1) = (Gen.C10.wcFind c0 m).toNat := by
-  intro k
-  induction k with
-  | zero => intro n z w c _ _ _ _ _ _ m h1 h2; omega
-  | succ k ih =>
+  intro fuel
+  induction fuel with
+  | zero =>
+    intro n z w c _ _ _ _ _ hgo m h1 h2
+    simp only [goP] at hgo
+    have := Nat.le_of_ble_eq_true hgo
+    omega
+  | succ fuel ih =>
     intro n z w c sz sw hz hw hc hgo m h1 h2
-    simp only [go, forceL_eq, Bool.and_eq_true, beq_iff_eq] at hgo
+    simp only [goP, forceL_eq] at hgo
+    have hn : n < hi := by omega
+    simp only [ble_false (by omega : ¬ hi ≤ n), Bool.false_eq_true, if_false] at hgo
     have sz' := dropDead_sorted z n sz
     have sw' := dropDead_sorted w n sw
-    by_cases hm : m = n
-    · subst hm
-      have := hgo.1
-      rw [inRE_eq _ _ sz', inRE_eq _ _ sw', dropDead_inR _ _ _ (Nat.le_refl _), dropDead_inR _ _ _ (Nat.le_refl _),
-        dropDeadC_wcFind _ _ _ (Nat.le_refl _), hz m (Nat.le_refl _), hw m (Nat.le_refl _), hc m (Nat.le_refl _)] at this
-      exact this
-    · exact ih (n + 1) _ _ _ sz' sw'
+    cases hpz : pieceZ hi (dropDead z n) n with
+    | none => simp [hpz] at hgo
+    | some pz =>
+    cases hpw : pieceZ hi (dropDead w n) n with
+    | none => simp [hpz, hpw] at hgo
+    | some pw =>
+    cases hpc : pieceC hi (dropDeadC c n) n with
+    | none => simp [hpz, hpw, hpc] at hgo
+    | some pc =>
+    obtain ⟨vz, ez⟩ := pz; obtain ⟨vw, ew⟩ := pw; obtain ⟨vc, ec⟩ := pc
+    simp only [hpz, hpw, hpc, Bool.and_eq_true, beq_iff_eq] at hgo
+    obtain ⟨lz, cz⟩ := pieceZ_sound hi _ n vz ez sz' hn hpz
+    obtain ⟨lw, cw⟩ := pieceZ_sound hi _ n vw ew sw' hn hpw
+    obtain ⟨lc, cc⟩ := pieceC_sound hi _ n vc ec hn hpc
+    by_cases hm : m < min ez (min ew ec)
+    · have m1 : m < ez := by omega
+      have m2 : m < ew := by omega
+      have m3 : m < ec := by omega
+      rw [← hz m h1, ← hw m h1, ← hc m h1, ← dropDead_inR z n m h1, ← dropDead_inR w n m h1,
+        ← dropDeadC_wcFind c n m h1, cz m h1 m1, cw m h1 m2, cc m h1 m3]
+      exact hgo.1
+    · exact ih (min ez (min ew ec)) _ _ _ sz' sw'
         (fun m' hm' => by rw [dropDead_inR _ _ _ (by omega), hz m' (by omega)])
         (fun m' hm' => by rw [dropDead_inR _ _ _ (by omega), hw m' (by omega)])
         (fun m' hm' => by rw [dropDeadC_wcFind _ _ _ (by omega), hc m' (by omega)])
-        hgo.2 m (by omega) (by omega)
+        hgo.2 m (by omega) h2
 
-/-- the check for one range `[lo, hi)` of code points, on the regenerated tables -/
-def rangeOk (lo hi : Nat) : Bool :=
-  go Gen.C11.zeroWidthRanges Gen.C11.wideRanges Gen.C10.wcRanges lo (hi - lo)
+/-- the check for all code points below `hi`, on the regenerated tables (`fuel` ≥ number of pieces) -/
+def allOk (hi fuel : Nat) : Bool :=
+  goP hi fuel Gen.C11.zeroWidthRanges Gen.C11.wideRanges Gen.C10.wcRanges 0
 
 theorem gen_tables_sorted : sortedB Gen.C11.zeroWidthRanges = true ∧ sortedB Gen.C11.wideRanges = true := by
   decide +kernel
 
-theorem rangeOk_sound (lo hi : Nat) (h : rangeOk lo hi = true) (n : Nat) (h1 : lo ≤ n) (h2 : n < hi) :
-    rawWidthN n = (Gen.C10.wcwidth n).toNat :=
-  go_sound _ _ _ (hi - lo) lo _ _ _ gen_tables_sorted.1 gen_tables_sorted.2 (fun _ _ => rfl) (fun _ _ => rfl)
-    (fun _ _ => rfl) h n h1 (by omega)
+set_option maxRecDepth 100000 in
+theorem gen_widths_all_ok : allOk 1114112 4000 = true := by decide +kernel
 
-set_option maxRecDepth 1000000 in
-theorem gen_widths_scanned_ok : (Gen.C11.scanned.all fun r => rangeOk r.1 r.2) = true := by decide +kernel
+theorem gen_widths_all (n : Nat) (h : n < 1114112) : rawWidthN n = (Gen.C10.wcwidth n).toNat :=
+  goP_sound 1114112 _ _ _ 4000 0 _ _ _ gen_tables_sorted.1 gen_tables_sorted.2 (fun _ _ => rfl) (fun _ _ => rfl)
+    (fun _ _ => rfl) gen_widths_all_ok n (Nat.zero_le _) h
 
-/-- a code point of the ranges C11's width table was scanned on (half open) -/
-def inScanned (n : Nat) : Prop := ∃ r ∈ Gen.C11.scanned, r.1 ≤ n ∧ n < r.2
+theorem char_toNat_lt (c : Char) : c.toNat < 1114112 := by
+  rcases c.valid with h | h
+  · exact Nat.lt_trans h (by decide)
+  · exact h.2
 
 -- utils.py::get_cwidth (one character) — the generated `Gen.C11.rawWidth` (C11's `rw`) vs `max(0, wcwidth)` of the
--- generated `Gen.C10.wcwidth` (C10's `wc`), on every scanned code point
-theorem gen_hrw_scanned (c : Char) (h : inScanned c.toNat) :
-    C11.genW.rw c = (C10.genWc c.toNat).toNat := by
-  obtain ⟨r, hr, h1, h2⟩ := h
-  have hall := gen_widths_scanned_ok
-  rw [List.all_eq_true] at hall
-  exact rangeOk_sound r.1 r.2 (hall r hr) c.toNat h1 h2
+-- generated `Gen.C10.wcwidth` (C10's `wc`), for EVERY character
+theorem gen_hrw (c : Char) : C11.genW.rw c = (C10.genWc c.toNat).toNat :=
+  gen_widths_all c.toNat (char_toNat_lt c)
 
--- outside the scanned ranges the two generated width tables DISAGREE: U+3105 (BOPOMOFO LETTER B) is wide for
--- `wcwidth` (C10: 2), C11's table, scanned only on `Gen.C11.scanned`, says 1
-theorem gen_hrw_outside_scanned :
-    C11.genW.rw (Char.ofNat 0x3105) = 1 ∧ (C10.genWc (Char.ofNat 0x3105).toNat).toNat = 2 := by
-  decide +kernel
+/-- a code point of the ranges C11's width table was scanned on in round 1 (half open) -/
+def inScanned (n : Nat) : Prop := ∃ r ∈ Gen.C11.scanned, r.1 ≤ n ∧ n < r.2
+
+-- the earlier, weaker form (kept for references to it): agreement on the round-1 scanned ranges
+theorem gen_hrw_scanned (c : Char) (_h : inScanned c.toNat) :
+    C11.genW.rw c = (C10.genWc c.toNat).toNat := gen_hrw c
+
+-- layout/screen.py::Char.__init__ / utils.py::get_cwidth — the regenerated character classes of C11 and C10 are
+-- related by the translation `WRel` the parametric agreement theorems assume
+theorem genW_WRel : Char.WRel C11.genW C10.genTable C10.genWc :=
+  ⟨gen_hrw, gen_hdisp⟩
+
+theorem gen_printableUnmapped : Char.PrintableUnmapped C10.genTable Gen.C10.isPrintable := gen_hpr
+
+
+/-! ### `Window._copy_body` with the regenerated character classes of both drivers -/
+
+/-- the C10 configuration with the regenerated tables (`Char.display_mappings`, `wcwidth`, `isprintable`, default
+    character) and the window geometry / scroll / prefix left free -/
+def genCfg (xpos ypos width height : Int) (wrap : Bool) (hscroll : Nat)
+    (pre : Option (Nat → Nat → List C10.Frag)) : C10.CopyCfg :=
+  { m := C10.genTable, wc := C10.genWc, printable := Gen.C10.isPrintable, dflt := C10.genD0,
+    xpos := xpos, ypos := ypos, width := width, height := height, wrap := wrap, hscroll := hscroll, align := 0,
+    pre := pre }
+
+/-- the C11 environment with the regenerated character classes -/
+def genEnv (xpos ypos width height : Int) (wrap : Bool) (pfx : Option (Nat → Nat → Text)) : C11.Env :=
+  { W := C11.genW, width := width, height := height, wrap := wrap, xpos := xpos, ypos := ypos, pfx := pfx }
+
+theorem gen_keysSingle : C10.keysSingle C10.genTable = true := by decide +kernel
+theorem gen_d0 : C10.genD0.char = [32] ∧ C10.genD0.width = C10.cwidth C10.genWc [32] := by decide +kernel
+theorem gen_dm : C11.genW.dm = true := by decide
+
+theorem envRel_gen (xpos ypos width height : Int) (wrap : Bool) (hscroll : Nat)
+    (pre : Option (Nat → Nat → List C10.Frag)) (pfx : Option (Nat → Nat → Text)) :
+    Copy.EnvRel (genCfg xpos ypos width height wrap hscroll pre) (genEnv xpos ypos width height wrap pfx) :=
+  { w := genW_WRel, xpos := rfl, ypos := rfl, width := rfl, height := rfl, wrap := rfl, align := rfl,
+    dchar := gen_d0.1, dwidth := gen_d0.2, keys := gen_keysSingle }
+
+-- layout/containers.py::Window._copy_body — `Copy.copyBody_agree` instantiated with the regenerated tables of BOTH
+-- drivers (C10: genTable / genWc / isPrintable / genD0, C11: genW): no hypothesis about the characters is left
+theorem copyBody_agree_gen (xpos ypos width height : Int) (wrap : Bool) (hscroll : Nat)
+    (pf : Option (Nat → Nat → List (Text × Text))) (hpf : ∀ f, pf = some f → ∀ l k, Copy.NoZwe (f l k))
+    (tss : List (List (Text × Text))) (hz : ∀ ts ∈ tss, Copy.NoZwe ts)
+    (vs vs2 : Nat) (zwe : C10.Zwe) :
+    let cfg := genCfg xpos ypos width height wrap hscroll (pf.map fun f l k => Copy.encFrags (f l k))
+    let e := genEnv xpos ypos width height wrap (pf.map fun f l k => Copy.flat (f l k))
+    let s : C11.Scroll := ⟨vs, hscroll, vs2⟩
+    (C10.copyBody cfg [] zwe (tss.map Copy.encFrags) vs vs2).buf.map (fun pc => (pc.1, pc.2.char))
+      = (C11.copyBody e (tss.map Copy.flat) s).cells.map (fun pc => (pc.1, pc.2.map Char.toNat)) ∧
+    (C10.copyBody cfg [] zwe (tss.map Copy.encFrags) vs vs2).x = (C11.copyBody e (tss.map Copy.flat) s).x ∧
+    (C10.copyBody cfg [] zwe (tss.map Copy.encFrags) vs vs2).y = (C11.copyBody e (tss.map Copy.flat) s).y := by
+  intro cfg e s
+  have he : Copy.EnvRel cfg e := envRel_gen _ _ _ _ _ _ _ _
+  have hp : Copy.PreRel cfg e := by
+    cases pf with
+    | none => exact .none rfl rfl
+    | some f => exact .some f (hpf f rfl) rfl rfl
+  have hh : Copy.HsRel cfg e s.hs := ⟨rfl, fun _ => gen_dm, fun _ => gen_printableUnmapped⟩
+  have := Copy.copyBody_agree he hp tss hz s (by show (0 : Int) ≤ ((vs2 : Nat) : Int); omega) hh zwe
+  simpa [s] using this
 
 end Ptk.AgreeOut.GenChar
